@@ -110,6 +110,8 @@ def doy_forms(d, m, all_months=False):
 def date_forms(d, m, y, all_months=False, numeric=True, named=True):
     D = day("date", d, m, y)
     out = []
+    # the written-year vocabulary of the code (ctparse/rule.py _regex_year) is 1900-2029; other years are outside the model
+    assert 1900 <= y <= 2029, "written year outside the vocabulary of the rule base"
     if numeric:
         out += [("date:d.m.yyyy", "%d.%d.%d" % (d, m, y), D),
                 ("date:dd.mm.yyyy", "%02d.%02d.%d" % (d, m, y), D),
